@@ -81,7 +81,9 @@ pub fn b_access(recv: u8, acc: u8) {
         got = match acc {
             0 => &v[(col, row)] as *const u8,
             1 => &v[row][col] as *const u8,
-            _ => &v.col(col)[row] as *const u8,
+            2 => &v.col(col)[row] as *const u8,
+            6 => unsafe { v.get_unchecked((col, row)) as *const u8 },
+            _ => unsafe { &v.get_unchecked_row(row)[col] as *const u8 },
         };
     } else {
         let n = stride * rows;
@@ -99,7 +101,12 @@ fn access<G: TooDeeOpsMut<u8>>(g: &mut G, acc: u8, col: usize, row: usize) -> *c
         2 => &g.col(col)[row] as *const u8,
         3 => &mut g[(col, row)] as *mut u8 as *const u8,
         4 => &mut g[row][col] as *mut u8 as *const u8,
-        _ => &mut g.col_mut(col)[row] as *mut u8 as *const u8,
+        5 => &mut g.col_mut(col)[row] as *mut u8 as *const u8,
+        // the unchecked getters are only ever replayed with in-range witnesses (their kernels assume it)
+        6 => unsafe { g.get_unchecked((col, row)) as *const u8 },
+        7 => unsafe { &g.get_unchecked_row(row)[col] as *const u8 },
+        8 => unsafe { g.get_unchecked_mut((col, row)) as *mut u8 as *const u8 },
+        _ => unsafe { &mut g.get_unchecked_row_mut(row)[col] as *mut u8 as *const u8 },
     }
 }
 
